@@ -17,25 +17,27 @@ import (
 )
 
 type btr struct {
-	c       *ex.Ctx
-	locals  map[string]int
-	order   []string
-	loops   []string            // loop variable names, outermost first
-	alias   map[string]ast.Expr // `line := vt.activeScreen[row]` → the row expression
-	pmName  string              // name of the [][]int parameter, "" if none
-	brkable []string            // innermost breakable statement: "for" | "switch"
-	bools   map[string]bool     // bool locals (held as 0/1)
-	seqName string              // name of the ansi.Print parameter of print(), "" otherwise
-	glyph   string              // local holding the glyph cell of print()
-	cellVar string              // local holding a copy of a cell (`ch := vt.activeScreen[r][c]`)
-	fnName  string              // the function being translated
-	tabsAcc string              // local slice `tabs := []column{}`
-	tabVar  string              // value variable of `for _, ts := range vt.tabStop`
-	tabIdx  string              // index variable of `for i := len(vt.tabStop) - 1; i >= 0; i -= 1`
-	penVar  string              // local holding a copy of the pen (`pen := vt.cursor.Style`)
-	paramVar string             // value variable of `for _, param := range params`
-	stateVar string             // local of type cursorState (decsc/decrc)
-	unknown int
+	c        *ex.Ctx
+	locals   map[string]int
+	order    []string
+	loops    []string            // loop variable names, outermost first
+	alias    map[string]ast.Expr // `line := vt.activeScreen[row]` → the row expression
+	pmName   string              // name of the [][]int parameter, "" if none
+	brkable  []string            // innermost breakable statement: "for" | "switch"
+	bools    map[string]bool     // bool locals (held as 0/1)
+	seqName  string              // name of the ansi.Print parameter of print(), "" otherwise
+	glyph    string              // local holding the glyph cell of print()
+	cellVar  string              // local holding a copy of a cell (`ch := vt.activeScreen[r][c]`)
+	fnName   string              // the function being translated
+	tabsAcc  string              // local slice `tabs := []column{}`
+	tabVar   string              // value variable of `for _, ts := range vt.tabStop`
+	tabIdx   string              // index variable of `for i := len(vt.tabStop) - 1; i >= 0; i -= 1`
+	penVar   string              // local holding a copy of the pen (`pen := vt.cursor.Style`)
+	paramVar string              // value variable of `for _, param := range params`
+	stateVar string              // local of type cursorState (decsc/decrc)
+	oldVar   string              // resize(): local snapshot of the old primary screen (`primary := vt.primaryScreen`)
+	oldCell  string              // resize(): local copy of an old cell (`cell := primary[r][c]`)
+	unknown  int
 }
 
 var knownCallees = map[string]bool{"cuu": true, "cud": true, "ind": true, "nel": true, "ri": true, "lf": true,
@@ -133,6 +135,10 @@ func (t *btr) expr(e ast.Expr) (string, bool) {
 			return ".height", true
 		case fun == "len" && len(x.Args) == 1 && t.pmName != "" && t.src(x.Args[0]) == t.pmName:
 			return ".lenPm", true
+		case fun == "len" && len(x.Args) == 1 && t.oldVar != "" && t.src(x.Args[0]) == t.oldVar:
+			return ".lenOld", true
+		case fun == "len" && len(x.Args) == 1 && t.oldVar != "" && t.src(x.Args[0]) == t.oldVar+"[0]":
+			return ".lenOld0", true
 		case fun == "ps" && len(x.Args) == 1 && t.pmName != "" && t.src(x.Args[0]) == t.pmName && t.loopIndex("ps") < 0:
 			if _, shadow := t.locals["ps"]; !shadow {
 				return ".psParams", true
@@ -363,6 +369,9 @@ func (t *btr) forStmt(s *ast.ForStmt) string {
 	if r, ok := t.tabsRange(s); ok {
 		return r
 	}
+	if r, ok := t.forS(s); ok {
+		return r
+	}
 	init, ok := s.Init.(*ast.AssignStmt)
 	if !ok || init.Tok != token.DEFINE || len(init.Lhs) != 1 || len(init.Rhs) != 1 || s.Cond == nil || s.Post == nil {
 		return t.unk(s)
@@ -563,7 +572,7 @@ func (t *btr) rangeStmt(s *ast.RangeStmt) string {
 
 var primTexts = map[string]string{
 	"if len(seq.Grapheme) == 1 && vt.charsets.designations[vt.charsets.selected] == decSpecialAndLineDrawing { shifted, ok := decSpecial[seq.Grapheme[0]] if ok { seq.Grapheme = string(shifted) } }": "(.prim .decSpecial)",
-	"if vt.charsets.singleShift { vt.charsets.selected = vt.charsets.saved }":                                                                                                                  "(.prim .singleShift)",
+	"if vt.charsets.singleShift { vt.charsets.selected = vt.charsets.saved }": "(.prim .singleShift)",
 }
 
 func (t *btr) ifStmt(s *ast.IfStmt) string {
@@ -714,7 +723,45 @@ func (t *btr) assign(s *ast.AssignStmt) string {
 			case "false":
 				return fmt.Sprintf("(.assign (.var %d) (.lit 0))", t.locals[id.Name])
 			}
+			if !(t.oldCell != "" && t.src(rhs) == t.oldCell+".wrapped") {
+				return t.unk(s)
+			}
+		}
+	}
+	// b := false / b := true (a bool local, held as 0/1)
+	if s.Tok == token.DEFINE && len(t.loops) == 0 {
+		if id, ok := lhs.(*ast.Ident); ok && (t.src(rhs) == "false" || t.src(rhs) == "true") {
+			if k, ok := t.declare(id.Name); ok {
+				t.bools[id.Name] = true
+				if t.src(rhs) == "true" {
+					return fmt.Sprintf("(.assign (.var %d) (.lit 1))", k)
+				}
+				return fmt.Sprintf("(.assign (.var %d) (.lit 0))", k)
+			}
 			return t.unk(s)
+		}
+	}
+	// resize(): cell := primary[r][c]; vt.cursor.Style = cell.Style; wrapped = cell.wrapped
+	if t.oldVar != "" && len(t.loops) == 0 {
+		if id, ok := lhs.(*ast.Ident); ok && s.Tok == token.DEFINE && t.oldCell == "" {
+			if ix, ok := rhs.(*ast.IndexExpr); ok {
+				if in, ok := ix.X.(*ast.IndexExpr); ok && t.src(in.X) == t.oldVar {
+					r, ok1 := t.expr(in.Index)
+					c, ok2 := t.expr(ix.Index)
+					if _, isLocal := t.locals[id.Name]; ok1 && ok2 && !isLocal && id.Name != "_" {
+						t.oldCell = id.Name
+						return fmt.Sprintf("(.loadOldCell %s %s)", r, c)
+					}
+				}
+			}
+		}
+		if s.Tok == token.ASSIGN && t.oldCell != "" {
+			if t.src(lhs) == "vt.cursor.Style" && t.src(rhs) == t.oldCell+".Style" {
+				return ".penFromCell"
+			}
+			if id, ok := lhs.(*ast.Ident); ok && t.bools[id.Name] && t.src(rhs) == t.oldCell+".wrapped" {
+				return fmt.Sprintf("(.assignCellWrapped %d)", t.locals[id.Name])
+			}
 		}
 	}
 	// the glyph cell of print(): cell := cell{Cell: vaxis.Cell{Character: {seq.Grapheme, seq.Width}, Style: vt.cursor.Style}}
@@ -973,6 +1020,61 @@ func (t *btr) tabsRange(s *ast.ForStmt) (string, bool) {
 	return fmt.Sprintf("(.tabsAppendRange %d %d %d)", a, b, st), true
 }
 
+// a function-level loop over the local snapshot of the old primary screen:
+// for v := lo; v < len(primary) | len(primary[0]); v += 1 { function-level statements }
+func (t *btr) forS(s *ast.ForStmt) (string, bool) {
+	if t.oldVar == "" || len(t.loops) != 0 || t.tabVar != "" || t.tabIdx != "" || t.paramVar != "" || s.Cond == nil || s.Post == nil {
+		return "", false
+	}
+	init, ok := s.Init.(*ast.AssignStmt)
+	if !ok || init.Tok != token.DEFINE || len(init.Lhs) != 1 || len(init.Rhs) != 1 {
+		return "", false
+	}
+	v, ok := init.Lhs[0].(*ast.Ident)
+	if !ok || !strings.Contains(t.src(s.Cond), t.oldVar) {
+		return "", false
+	}
+	if p := t.src(s.Post); p != v.Name+" += 1" && p != v.Name+"++" {
+		return "", false
+	}
+	lo, ok := t.expr(init.Rhs[0])
+	if !ok {
+		return "", false
+	}
+	k, ok := t.declare(v.Name)
+	if !ok {
+		return "", false
+	}
+	b, ok := t.bound(s.Cond, v.Name)
+	if !ok {
+		return "", false
+	}
+	// the loop variable must not be assigned in the body
+	bad := false
+	ast.Inspect(s.Body, func(n ast.Node) bool {
+		switch a := n.(type) {
+		case *ast.AssignStmt:
+			for _, l := range a.Lhs {
+				if id, ok := l.(*ast.Ident); ok && (id.Name == v.Name || id.Name == t.oldVar) {
+					bad = true
+				}
+			}
+		case *ast.IncDecStmt:
+			if id, ok := a.X.(*ast.Ident); ok && id.Name == v.Name {
+				bad = true
+			}
+		}
+		return true
+	})
+	if bad {
+		return "", false
+	}
+	t.brkable = append(t.brkable, "for")
+	body := t.block(s.Body.List)
+	t.brkable = t.brkable[:len(t.brkable)-1]
+	return fmt.Sprintf("(.forS %d %s %s\n %s)", k, lo, b, body), true
+}
+
 // statements of resize() recognised as a whole (by their whitespace-normalised source text)
 func (t *btr) resizeStmt(s ast.Stmt) (string, bool) {
 	if (t.fnName != "resize" && t.fnName != "ris") || len(t.loops) != 0 {
@@ -987,7 +1089,10 @@ func (t *btr) resizeStmt(s ast.Stmt) (string, bool) {
 	H := fmt.Sprintf("(.loc (.var %d))", h)
 	switch t.src(s) {
 	case "primary := vt.primaryScreen":
-		return "(.prim .snapshotPrimary)", true
+		if _, isLocal := t.locals["primary"]; !isLocal && t.oldVar == "" {
+			t.oldVar = "primary"
+			return "(.prim .snapshotPrimary)", true
+		}
 	case "vt.altScreen = make([][]cell, h)":
 		return "(.allocAlt " + H + ")", true
 	case "vt.primaryScreen = make([][]cell, h)":
@@ -1000,10 +1105,6 @@ func (t *btr) resizeStmt(s ast.Stmt) (string, bool) {
 		return "(.prim .activePrimary)", true
 	case "switch vt.mode.smcup { case false: vt.activeScreen = vt.primaryScreen default: vt.activeScreen = vt.altScreen }":
 		return "(.prim .activeBySmcup)", true
-	case "for row := 0; row < len(primary); row += 1 { if row == int(last) { break } wrapped := false for col := 0; col < len(primary[0]); col += 1 { cell := primary[row][col] vt.cursor.Style = cell.Style vt.print(ansi.Print{ Grapheme: cell.Character.Grapheme, Width: cell.Character.Width, }) wrapped = cell.wrapped } if !wrapped { vt.nel() } }":
-		if k, ok := t.locals["last"]; ok && k == 2 {
-			return "(.prim .reflowOld)", true
-		}
 	}
 	return "", false
 }
@@ -1112,6 +1213,11 @@ func (t *btr) stmt(s ast.Stmt) string {
 					return ".reply"
 				}
 			}
+		}
+		// resize(): vt.print(ansi.Print{Grapheme: cell.Character.Grapheme, Width: cell.Character.Width})
+		if fun == "vt.print" && t.oldCell != "" && len(t.loops) == 0 && len(call.Args) == 1 &&
+			t.src(call.Args[0]) == "ansi.Print{ Grapheme: "+t.oldCell+".Character.Grapheme, Width: "+t.oldCell+".Character.Width, }" {
+			return ".printCell"
 		}
 		// copy(vt.activeScreen[d], vt.activeScreen[s])
 		if fun == "copy" && len(call.Args) == 2 {
